@@ -192,9 +192,12 @@ def case_pbn_hand(shapes):
             canon = z3.And([sstr.zc(a) == sstr.zc(b) for a, b in zip(got, want)]) if len(got) == len(want) else z3.BoolVal(False)
             chk = [('canonical text: suits S.H.D.C, ranks high to low, a void is an empty field', canon)]
             try:
-                back = eng.call_function(Hands._hand_parser, [t], {})
+                back = eng.call(Hands._hand_parser, [t], {})
+                again = eng.call(Hands._hand_parser, [t], {})
             except symx.RaiseEx as e:
                 return dict(outcome='raise', cex=cex, checks=chk + [(f'_hand_parser does not raise ({type(e.exc).__name__})', False)])
+            # hands are mutable sets that the play engine consumes: every decode must hand out a set of its own
+            chk.append(('decoding the same text twice gives two independent sets (no shared object)', back is not again))
             if not isinstance(back, CardSet):
                 back = cardmod.cardset_from_cards(eng, back)
             bits = [z3.Or([cardmod.card_idx(c) == i for c in hand]) for i in range(52)]
@@ -268,7 +271,11 @@ def case_pbn_deal(pattern):
         for a, b in itertools.combinations(pres, 2):
             e = sstr.eq(tokens[a], tokens[b])
             eng.assume(z3.Not(e))
-        deal = SObj(Hands, {SEATS[p]: hand_objs[p] for p in range(1, 5)})
+        # the real constructor, and TWO writes from the same object (an earlier write from another first seat must not
+        # influence a later one: query - query)
+        deal = eng.construct(Hands, [hand_objs[p] for p in range(1, 5)], {})
+        first0 = z3.Int('earlier_first_seat')
+        eng.assume(z3.And(1 <= first0, first0 <= 4))
 
         def enc_stub(eng_, args, kw):
             h = args[-1]
@@ -289,8 +296,9 @@ def case_pbn_deal(pattern):
         eng.stubs[Hands._hand_parser] = dec_stub
 
         def cex(m):
-            return {'kind': 'pbn_deal', 'first': hx.mval(m, first), 'present': list(pattern)}
+            return {'kind': 'pbn_deal', 'first': hx.mval(m, first), 'earlier_first': hx.mval(m, first0), 'present': list(pattern)}
         try:
+            eng.call_function(Hands.to_pbn, [deal, SEnum(Player, first0)], {})
             line = eng.call_function(Hands.to_pbn, [deal, SEnum(Player, first)], {})
         except symx.RaiseEx as e:
             return dict(outcome='raise', cex=cex, checks=[(f'to_pbn does not raise ({type(e.exc).__name__})', False)])
